@@ -306,7 +306,7 @@ def plan(ctx):
     ul.write()
     ctx.functions_under_contract += ul.functions
     HL = 'harness/C14/loops.c'
-    VS = ['vstr_assign', 'vstr_append', 'vsv_at']
+    VS = ['vstr_assign', 'vstr_append', 'vsv_at', 'vsv_concat_out']
     groups.append(Group(name='Filesystem.read_all(fd)', harness=HL, entry='h_read_all_fd', function='read_all(int)', enforce='phosg_read_all_fd',
                         replace=['c14_read'] + VS, loops=True, kind='loop-contract', timeout=300, fallback_unwind=4, object_bits=12,
                         clause_note='returns exactly the g_src_len bytes of the ghost stream, only after read() reported end-of-file; io_error iff read() failed',
